@@ -2,6 +2,7 @@
 From Coq Require Import NArith Bool List Lia FMapPositive.
 From RS.Gen Require Import Prelude GenConsts.
 From RS.Model Require Import Field Sched Codec Machine.
+From RS.Proofs Require Import ShardLen.
 Import ListNotations.
 Local Open Scope N_scope.
 
@@ -18,6 +19,34 @@ Proof.
   apply N.ltb_ge in Hi. rewrite Hi. reflexivity.
 Qed.
 Print Assumptions C12_rec.
+
+(* the iterator yields exactly recovery_count shards, each of exactly shard_bytes bytes, and
+   recovery(i) is Some (that shard) exactly for i < recovery_count — for every encoder the
+   machine can produce (enc_cfg is established by every constructor/reset and preserved by
+   add and by dropping a result) *)
+Theorem C12_rec_shape : forall junk ep x probes x' rec pr, enc_cfg x ->
+  enc_encode junk ep x probes = (x', REnc rec pr) ->
+  length rec = N.to_nat (ew_R (e_work x)) /\ Forall (fun b => blen b = ew_sb (e_work x)) rec /\
+  (forall i, In i probes -> i < ew_R (e_work x) -> exists b, In (i, Some b) pr /\ blen b = ew_sb (e_work x)) /\
+  enc_cfg x'.
+Proof.
+  intros junk ep x probes x' rec pr Hc He. destruct (enc_encode_shape junk ep x probes x' rec pr Hc He) as [L F].
+  split; [exact L|]. split; [exact F|]. split.
+  - destruct (C12_rec junk ep x probes x' rec pr He) as [Hpr _]. intros i Hi Hlt.
+    assert (Hn : exists b, nth_error rec (N.to_nat i) = Some b).
+    { destruct (nth_error rec (N.to_nat i)) eqn:E; [eexists; reflexivity|]. apply nth_error_None in E. lia. }
+    destruct Hn as [b Hb]. exists b. split.
+    + rewrite Hpr. apply in_map_iff. exists i. split; [|exact Hi]. apply N.ltb_lt in Hlt. rewrite Hlt, Hb. reflexivity.
+    + rewrite Forall_forall in F. apply F. eapply nth_error_In. exact Hb.
+  - unfold enc_encode in He. destruct (negb _); [discriminate|]. inversion He; subst. apply enc_after_round_cfg, Hc.
+Qed.
+Print Assumptions C12_rec_shape.
+
+Theorem C12_cfg_invariant :
+  (forall c e K R sb w x a, enc_make c e K R sb w = inl (x, a) -> enc_cfg x) /\
+  (forall x s x', enc_cfg x -> enc_add x s = inl x' -> enc_cfg x').
+Proof. split; [exact enc_make_cfg|exact enc_add_cfg]. Qed.
+Print Assumptions C12_cfg_invariant.
 
 (* restored_original(i): Some only for in-range indexes that were not given *)
 Theorem C12_res : forall junk ep x probes x' it pr i b,
